@@ -55,6 +55,7 @@ static int func_sp;
 static const void *watched;
 static bool learn_fetch_or;
 static int64_t last_watched_load = -1;
+static int64_t last_write0 = -1;
 
 #define MAX_GUARD 16
 static struct {
@@ -112,6 +113,7 @@ void shim_reset(void)
 	nsites = 0;
 	func_sp = 0;
 	last_watched_load = -1;
+	last_write0 = -1;
 	nguards = 0;
 	guard_hits = 0;
 	guard_last[0] = 0;
@@ -163,7 +165,12 @@ void shim_learn_next_fetch_or(void) { learn_fetch_or = true; }
 const void *shim_watched(void) { return watched; }
 void shim_watch(const void *a) { watched = a; }
 int64_t shim_last_watched_load(void) { return last_watched_load; }
-void shim_clear_last_watched_load(void) { last_watched_load = -1; }
+void shim_clear_last_watched_load(void)
+{
+	last_watched_load = -1;
+	last_write0 = -1;
+}
+int64_t shim_last_write0(void) { return last_write0; }
 void shim_guard_add(const void *lo, size_t len)
 {
 	if (nguards < MAX_GUARD) {
@@ -466,9 +473,11 @@ void __tsan_func_exit(void)
 	{                                                                                                              \
 		if (!enabled)                                                                                          \
 			return;                                                                                        \
-		if (is_write)                                                                                          \
+		if (is_write) {                                                                                        \
 			census.plain_writes++;                                                                         \
-		else                                                                                                   \
+			if (level == 0)                                                                                \
+				last_write0 = (int64_t)points[0];                                                      \
+		} else                                                                                                   \
 			census.plain_reads++;                                                                          \
 		if (nguards)                                                                                           \
 			guard_check(addr, size, is_write ? "write" : "read");                                          \
